@@ -146,7 +146,7 @@ def approx_equal(x, fr, tol=1e-6):
 
 
 def is_dyadic(scheme):
-    return all((x * 4) == int(x * 4) for x in list(scheme[0]) + list(scheme[1]))
+    return all((x * 1024) == int(x * 1024) for x in list(scheme[0]) + list(scheme[1]))
 
 
 def check_score(x, fr, scheme, what):
